@@ -41,7 +41,7 @@ def sx_listcomp(iterable, cond, elt):
     else:
         base = [(v, True) for v in iterable]
     for v, g0 in base:
-        c = cond(v)
+        c = cond(v) if cond is not None else True
         if isinstance(c, (SymInt, SymBool)):
             g = as_bool(c)
         else:
@@ -57,6 +57,40 @@ def sx_listcomp(iterable, cond, elt):
     if not symbolic or all(g is True for g in guards):
         return elems
     return GuardedList(elems, guards)
+
+
+def sx_genexp(iterable, cond, elt):
+    """(E for v in IT [if C]): stays a lazy generator unless a symbolic guard is involved"""
+    if isinstance(iterable, GuardedList):
+        return sx_listcomp(iterable, cond, elt)
+
+    # laziness is kept for ordinary iterables; small in-memory sequences (enum classes, tuples, lists) are evaluated
+    # eagerly so that symbolic guards can be merged
+    if isinstance(iterable, (list, tuple)) or isinstance(iterable, type):
+        return _materialise(iterable, cond, elt)
+    return gen_plain(iterable, cond, elt)
+
+
+def gen_plain(iterable, cond, elt):
+    for v in iterable:
+        c = cond(v) if cond is not None else True
+        if c:
+            yield elt(v)
+
+
+def _materialise(iterable, cond, elt):
+    r = sx_listcomp(iterable, cond, elt)
+    if isinstance(r, GuardedList):
+        return r
+    return iter(r)
+
+
+def sx_bool(x):
+    if isinstance(x, SymBool):
+        return x
+    if isinstance(x, SymInt):
+        return x != 0
+    return bool(x)
 
 
 def sx_map(f, *its):
@@ -78,7 +112,9 @@ def sx_join(s, x):
             return SymBytes.make(items)
         return s.join(x)
     if isinstance(s, str) and isinstance(x, GuardedList):
-        if all(isinstance(e, str) and not isinstance(e, AtomStr) for e in x.elems) and not isinstance(s, AtomStr):
+        from .values import has_atoms
+        if all(isinstance(e, str) and not isinstance(e, AtomStr) and not has_atoms(e) for e in x.elems) \
+                and not isinstance(s, AtomStr) and not has_atoms(s):
             return make_atom('join', [(g, e) for e, g in zip(x.elems, x.guards)], extra=s)
         return s.join(x.concretize())
     return s.join(x)
@@ -147,6 +183,8 @@ def sx_host_attr(name, attr):
     return getattr(sx_host(name), attr)
 
 
+builtins.__sx_genexp__ = sx_genexp
+builtins.__sx_bool__ = sx_bool
 builtins.__sx_host__ = sx_host
 builtins.__sx_host_attr__ = sx_host_attr
 builtins.__sx_in__ = sx_in
@@ -205,17 +243,26 @@ class Rewriter(ast.NodeTransformer):
         self.generic_visit(node)
         if len(node.generators) != 1:
             return node
+        return self._comp(node, '__sx_listcomp__')
+
+    def visit_GeneratorExp(self, node):
+        self.generic_visit(node)
+        if len(node.generators) != 1:
+            return node
+        return self._comp(node, '__sx_genexp__')
+
+    def _comp(self, node, helper):
         g = node.generators[0]
-        if g.is_async or len(g.ifs) != 1 or not isinstance(g.target, ast.Name):
+        if g.is_async or len(g.ifs) > 1 or not isinstance(g.target, ast.Name):
             return node
         if _has_walrus_or_yield(node):
             return node
         self.counts['listcomp'] += 1
         arg = ast.arguments(posonlyargs=[], args=[ast.arg(arg=g.target.id)], kwonlyargs=[], kw_defaults=[],
                             defaults=[])
-        new = ast.Call(func=ast.Name(id='__sx_listcomp__', ctx=ast.Load()),
-                       args=[g.iter, ast.Lambda(args=arg, body=g.ifs[0]), ast.Lambda(args=arg, body=node.elt)],
-                       keywords=[])
+        cond = ast.Lambda(args=arg, body=g.ifs[0]) if g.ifs else ast.Constant(value=None)
+        new = ast.Call(func=ast.Name(id=helper, ctx=ast.Load()),
+                       args=[g.iter, cond, ast.Lambda(args=arg, body=node.elt)], keywords=[])
         return ast.copy_location(new, node)
 
     def visit_Import(self, node):
@@ -253,6 +300,11 @@ class Rewriter(ast.NodeTransformer):
     def visit_Call(self, node):
         self.generic_visit(node)
         f = node.func
+        if isinstance(f, ast.Name) and f.id == 'bool' and len(node.args) == 1 and not node.keywords \
+                and not isinstance(node.args[0], ast.Starred):
+            self.counts['bool'] = self.counts.get('bool', 0) + 1
+            new = ast.Call(func=ast.Name(id='__sx_bool__', ctx=ast.Load()), args=node.args, keywords=[])
+            return ast.copy_location(new, node)
         if isinstance(f, ast.Name) and f.id in ('frozenset', 'set') and len(node.args) == 1 and not node.keywords \
                 and not isinstance(node.args[0], ast.Starred):
             self.counts['set'] += 1
